@@ -248,3 +248,70 @@ impl Actor for Master {
 impl Drop for Master {
     fn drop(&mut self) { if self.fd >= 0 { crate::sys::close(self.fd); self.fd = -1; } }
 }
+
+/// A bare command channel endpoint (framing + response accounting) for actors that drive
+/// several workers themselves.
+pub struct CmdChan {
+    pub fd: i32,
+    pub data: MasterData,
+    out: Vec<u8>,
+    inbuf: Vec<u8>,
+}
+impl CmdChan {
+    pub fn new(fd: i32) -> CmdChan { CmdChan { fd, data: MasterData::default(), out: Vec::new(), inbuf: Vec::new() } }
+    pub fn send(&mut self, id: &str, content: Request, now: u64) {
+        let wr = WorkerRequest { id: id.to_string(), content: content.clone() };
+        self.out.extend_from_slice(&frame(&wr));
+        self.data.sent.push((id.to_string(), content, now));
+    }
+    /// write pending bytes (everything the socket takes); returns true on progress
+    pub fn flush(&mut self) -> bool {
+        let mut progressed = false;
+        while !self.out.is_empty() {
+            match wr(self.fd, &self.out) {
+                Io::N(n) => { self.out.drain(..n); progressed = true; }
+                Io::WouldBlock => break,
+                _ => { self.data.eof = true; self.out.clear(); break; }
+            }
+        }
+        progressed
+    }
+    /// read and decode whatever is available; returns true on progress
+    pub fn pump(&mut self, w: &mut World) -> bool {
+        let mut progressed = false;
+        let mut buf = [0u8; 16384];
+        loop {
+            match rd(self.fd, &mut buf) {
+                Io::N(n) => { progressed = true; self.inbuf.extend_from_slice(&buf[..n]); }
+                Io::WouldBlock => break,
+                Io::Eof | Io::Err(_) => { if !self.data.eof { progressed = true; } self.data.eof = true; break; }
+            }
+        }
+        loop {
+            if self.inbuf.len() < 8 { break; }
+            let len = u64::from_le_bytes(self.inbuf[..8].try_into().unwrap()) as usize;
+            if len < 8 || len > 64 << 20 { self.data.garbage = Some(format!("bad frame length {len} from worker")); self.inbuf.clear(); break; }
+            if self.inbuf.len() < len { break; }
+            let frame: Vec<u8> = self.inbuf.drain(..len).collect();
+            match WorkerResponse::decode(&frame[8..]) {
+                Ok(resp) => {
+                    let id = resp.id.clone();
+                    if !self.data.sent.iter().any(|(i, _, _)| *i == id) { self.data.unknown_ids.push(id.clone()); }
+                    if resp.status == ResponseStatus::Processing as i32 {
+                        if self.data.finals.get(&id).copied().unwrap_or(0) > 0 { self.data.after_final.push(id.clone()); }
+                        *self.data.processing.entry(id).or_insert(0) += 1;
+                    } else {
+                        *self.data.finals.entry(id).or_insert(0) += 1;
+                    }
+                    w.tr(0x3B, resp.status as u64);
+                    self.data.responses.push((w.now, resp));
+                }
+                Err(e) => { self.data.garbage = Some(format!("undecodable response: {e}")); }
+            }
+        }
+        progressed
+    }
+    pub fn has_final(&self, id: &str) -> bool { self.data.finals.get(id).copied().unwrap_or(0) > 0 }
+    pub fn close(&mut self) { if self.fd >= 0 { crate::sys::close(self.fd); self.fd = -1; } }
+}
+impl Drop for CmdChan { fn drop(&mut self) { self.close(); } }
